@@ -39,7 +39,7 @@ func VerifMkfs() {
 		}
 	}
 	if !verifrt.Symbolic() {
-		rootb = readRootInode(s).VerifBlks()[0] // native replay has no event monitor
+		rootb = readRootInode(s, nfs.fsstate.Txn).VerifBlks()[0] // native replay has no event monitor
 	}
 	verifrt.Assert(rootb >= ds && rootb < sz, "root-dir-block-in-data-region")
 	// block bitmap on the logical disk, witness bit i in bitmap block k
@@ -58,7 +58,7 @@ func VerifMkfs() {
 	iset := ib[ii/8]&(1<<(ii%8)) != 0
 	verifrt.Assert(iset == (ii < 2), "inode-bitmap-marks-exactly-0-and-1")
 	// root inode
-	root := readRootInode(s)
+	root := readRootInode(s, nfs.fsstate.Txn)
 	verifrt.Assert(root.Kind == nfstypes.NF3DIR && root.Nlink >= 1 && root.Size == 256 && root.Gen == 1, "root-inode")
 	verifrt.Assert(root.VerifBlks()[0] == rootb, "root-points-to-its-block")
 	_ = inode.NF3FREE
